@@ -322,6 +322,24 @@ def resolveHeading (st : Styles) (id : Str) : Option Nat :=
         if resolvedBold st.defs ch && resolvedSz st ch ≥ 28 then some (estimateHeadingLevel (resolvedSz st ch))
         else none
 
+/-! ### parseListLevel -/
+
+/-- `maxListLevel`: the deepest list level of WordprocessingML (ilvl 0..8) -/
+def maxListLevel : Nat := 8
+
+/-- the loop of `parseListLevel` with the running value `level`: digits accumulate, other
+characters are ignored, and as soon as the running value exceeds `maxListLevel` the function
+returns `maxListLevel` (the rest of the string is not looked at) -/
+def listLevelFrom : Str → Nat → Nat
+  | [], level => level
+  | c :: rest, level =>
+    if 48 ≤ c ∧ c ≤ 57 then
+      (if level * 10 + (c - 48) > maxListLevel then maxListLevel else listLevelFrom rest (level * 10 + (c - 48)))
+    else listLevelFrom rest level
+
+/-- `parseListLevel` (docx/reader.go) -/
+def parseListLevel (s : Str) : Nat := listLevelFrom s 0
+
 /-! ### processParagraph -/
 
 structure Para where
@@ -343,7 +361,7 @@ def processParagraph (st : Styles) (p : Node) : Para :=
     | none => if outline ≠ [] then (parseOutlineLevel outline).map (· + 1) else none
   let numPr := (childNamed ppr sNumPr).map (·.kids) |>.getD []
   let numId := childVal numPr sNumId
-  let list := if numId ≠ [] ∧ numId ≠ [48] then some (numId, digitsVal (childVal numPr sIlvl)) else none
+  let list := if numId ≠ [] ∧ numId ≠ [48] then some (numId, parseListLevel (childVal numPr sIlvl)) else none
   { text := paraText p, heading := heading, list := list }
 
 /-! ### tables: ParseTable / parseCell / processVerticalMerges -/
@@ -362,9 +380,7 @@ def cellParaText (p : Node) : Str :=
 
 def parseCell (tc : Node) : Cell :=
   let pr := (childNamed tc.kids sTcPr).map (·.kids) |>.getD []
-  let span := match parseNat? (childVal pr sGridSpan) with
-    | some v => if v > 0 then v else 1
-    | none => 1
+  let span := boundedSpan (childVal pr sGridSpan)
   let vm := childNamed pr sVMerge
   let cont := match vm with
     | some v => v.attr sVal == [] || v.attr sVal == sContinue
